@@ -86,6 +86,15 @@ def c10(work, tier, seed, replay):
     for j in range(150 if tier == "quick" else 1500):
         path = g.walk(init, 25, rng, lambda e: e["act"]["status"] == 200)
         runs.append({"id": "bw%d" % j, "limit": 100000, "steps": [post_step(e["act"]) for e in path]})
+    # origins that are not configured, of many shapes (short, long, non-ASCII around every small offset): the same request 80 times, the
+    # driver draws a new origin for each
+    unk = [e for e in edges if e["act"].get("kind") == "unknown-origin"]
+    unk_runs = []
+    if unk:
+        for j in range(2 if tier == "quick" else 8):
+            e0 = unk[(j * 7) % len(unk)]
+            unk_runs.append({"id": "unk%d" % j, "limit": 100000, "steps": tofu_posts(e0["pre"], c["NWitKeys"]) + [post_step(e0["act"])] * 80})
+    runs += unk_runs
     runs += rate_runs()
     stores = ("inmem", "sqlmem") if tier == "quick" else ("inmem", "sqlmem", "sqlfile")
     embeds = ("id", "huge") if tier == "quick" else ("id", "pow2", "mixed", "huge")
@@ -105,8 +114,10 @@ def c10(work, tier, seed, replay):
     e2e = [r for r in runs if not r["id"].startswith("rate")]
     rng.shuffle(e2e)
     ne2e = 60 if tier == "quick" else 900
-    prod_e2e = e2e[ne2e:ne2e + (60 if tier == "quick" else 600)]
-    e2e = e2e[:ne2e]
+    quiet_runs = [r_ for r_ in e2e if r_["id"].startswith("b") and not r_["id"].startswith("bw") and len(r_["steps"]) > 3]
+    prod_e2e = unk_runs + quiet_runs[:12 if tier == "quick" else 200] + e2e[ne2e:ne2e + (50 if tier == "quick" else 500)]
+    prod_e2e = list({r_["id"]: r_ for r_ in prod_e2e}.values())
+    e2e = list({r_["id"]: r_ for r_ in [r_ for r_ in e2e[:ne2e] if r_ not in unk_runs] + unk_runs[:1]}.values())
     ep, et = work.path("e2e-runs.jsonl"), work.path("e2e.ndjson")
     write_runs(ep, params_of(c), e2e)
     o, dt = run_driver(["bastion-e2e", "-in", ep, "-out", et, "-dir", work.sub("db"), "-seed", str(seed)], timeout=3000)
